@@ -62,6 +62,7 @@ func finish(c *cat.Catalog, opts []cat.Opts, cb bool) *cat.Catalog {
 		if h == 3 || h == 8 {
 			f.Enc.RNest = f.Kind != "inv"
 		}
+		f.Enc.NilRes = f.Kind == "ctor" && h == 4
 		if cb && f.Kind != "inv" {
 			f.Cb = true
 		}
@@ -287,6 +288,145 @@ func SoftNest(opts []cat.Opts, cb bool) []*cat.Catalog {
 					c.Fns["i3"] = inv(append([]cat.Param(nil), lay...)...)
 					c.Note = fmt.Sprintf("softnest c1=%v c2=%v layout=%d c3=%s", p1, p2, li, s3)
 					out = append(out, finish(c, opts, cb))
+				}
+			}
+		}
+	}
+	return out
+}
+
+// IfaceGroups is the group motif over a group of *interfaces*: c1 feeds one member (a concrete
+// value under I0) and provides T3, c2 flattens a slice of I0 of length 1 or 2 whose first member
+// may be a nil interface (a member like any other), placed anywhere with Export; a consumer
+// constructor, an optional decorator of the group, Invokes of the group and of the consumer.
+func IfaceGroups(opts []cat.Opts, cb bool) []*cat.Catalog {
+	var out []*cat.Catalog
+	grp := func(k string) cat.Result { return cat.Result{Ks: []string{k}, M: "grp"} }
+	for _, p2 := range places() {
+		for n := 1; n <= 2; n++ {
+			for _, nilFirst := range []bool{false, true} {
+				for dv := 0; dv < 2; dv++ {
+					c := &cat.Catalog{Parent: copyTree(chainTree), Fns: map[string]*cat.Fn{}}
+					c.Fns["c1"] = ctor(Place{"r", false}, nil, grp("I0@g"), one("T3"))
+					c.Fns["c2"] = ctor(p2, nil, cat.Result{Ks: []string{"I0@g"}, M: "flat", N: n})
+					c.Fns["c3"] = ctor(Place{"a", false}, []cat.Param{par("I0@g", "grp", 1), par("T3", "opt", 1)}, one("T1"))
+					c.Fns["i1"] = inv(par("T1", "req", 0))
+					c.Fns["i2"] = inv(par("I0@g", "grp", 1))
+					if dv == 1 {
+						c.Fns["d1"] = dec("r", []cat.Param{par("I0@g", "grp", 1)}, cat.Result{Ks: []string{"I0@g"}, M: "grp", N: 1, O: 1})
+					}
+					c.Order = [][]string{{"c1", "c2", "c3"}, {"c2", "c3", "c1"}, {"c3", "c1", "c2"}}[(n+dv)%3]
+					c.Note = fmt.Sprintf("ifacegroups c2=%v n=%d nil=%v dec=%d", p2, n, nilFirst, dv)
+					finish(c, opts, cb)
+					for _, f := range c.Fns {
+						f.Enc.NilRes = false
+					}
+					c.Fns["c2"].Enc.NilRes = nilFirst
+					out = append(out, c)
+				}
+			}
+		}
+	}
+	return out
+}
+
+// DecPairs is the motif of two decorators meeting: every pair of decorators over the keys T0,
+// T2 (the element type of the group, as a single value), T2@g and T2@h, both in one scope or one
+// above the other, over a constructor feeding both groups and providing T0 and T2. A scope takes
+// one decorator per key and no more, in whatever order they arrive; a single value and a group
+// of the same element type are different keys, and so are two groups of different names.
+func DecPairs(opts []cat.Opts, cb bool) []*cat.Catalog {
+	var out []*cat.Catalog
+	grp := func(k string) cat.Result { return cat.Result{Ks: []string{k}, M: "grp"} }
+	kinds := []func(s string) *cat.Fn{
+		func(s string) *cat.Fn { return dec(s, []cat.Param{par("T0", "req", 0)}, one("T0")) },
+		func(s string) *cat.Fn { return dec(s, []cat.Param{par("T2", "req", 0)}, one("T2")) },
+		func(s string) *cat.Fn {
+			return dec(s, []cat.Param{par("T2@g", "grp", 1)}, cat.Result{Ks: []string{"T2@g"}, M: "grp", N: 1, O: 1})
+		},
+		func(s string) *cat.Fn {
+			return dec(s, []cat.Param{par("T2@h", "grp", 1)}, cat.Result{Ks: []string{"T2@h"}, M: "grp", N: 2, O: 1})
+		},
+	}
+	for k1 := range kinds {
+		for k2 := range kinds {
+			for _, sp := range [][2]string{{"r", "r"}, {"a", "a"}, {"r", "a"}} {
+				c := &cat.Catalog{Parent: copyTree(chainTree), Fns: map[string]*cat.Fn{}}
+				c.Fns["c1"] = ctor(Place{"r", false}, nil, grp("T2@g"), grp("T2@h"), one("T0"))
+				c.Fns["c2"] = ctor(Place{[]string{"r", "a"}[(k1+k2)%2], false}, nil, one("T2"))
+				c.Fns["d1"] = kinds[k1](sp[0])
+				c.Fns["d2"] = kinds[k2](sp[1])
+				c.Fns["i1"] = inv(par("T0", "req", 1), par("T2@g", "grp", 1), par("T2@h", "grp", 1), par("T2", "opt", 1))
+				c.Order = []string{"c1", "c2"}
+				c.Note = fmt.Sprintf("decpairs k1=%d k2=%d scopes=%v", k1, k2, sp)
+				out = append(out, finish(c, opts, cb))
+			}
+		}
+	}
+	return out
+}
+
+// Gaps is the motif of a missing dependency far below an optional edge:
+//   c1: (T5 req|opt) -> member of T2@g     (T5 is provided by c4, or by nobody)
+//   c2: ([]T2@g hard|soft, in an object or not) -> T0
+//   c3: (T0 req|opt) -> T1
+//   i1: (T1 opt)   i2: (T0 opt)   i3: (T1 req)   i4: (T1 opt, []T2@g)
+// plus, optionally, a decorator of T0 or of the group that needs T6, which nobody provides.
+// An optional edge tolerates exactly the failures that are a dependency somebody did not
+// provide - through single values, through value groups and through decorators alike - and
+// nothing else; whatever sits on such a path must not run when the gap is known beforehand.
+func Gaps(opts []cat.Opts, cb bool) []*cat.Catalog {
+	var out []*cat.Catalog
+	grp := func(k string) cat.Result { return cat.Result{Ks: []string{k}, M: "grp"} }
+	decVariants := []func(s string) map[string]*cat.Fn{
+		func(string) map[string]*cat.Fn { return nil },
+		func(s string) map[string]*cat.Fn {
+			return map[string]*cat.Fn{"d1": dec(s, []cat.Param{par("T0", "req", 0), par("T6", "req", 0)}, one("T0"))}
+		},
+		func(s string) map[string]*cat.Fn {
+			return map[string]*cat.Fn{"d1": dec(s, []cat.Param{par("T2@g", "grp", 1), par("T6", "req", 1)}, cat.Result{Ks: []string{"T2@g"}, M: "grp", N: 1, O: 1})}
+		},
+		func(s string) map[string]*cat.Fn {
+			return map[string]*cat.Fn{"d1": dec(s, []cat.Param{par("T1", "req", 0), par("T6", "opt", 1)}, one("T1"))}
+		},
+	}
+	for pi1, p1 := range places() {
+		for _, t5 := range []string{"", "r", "b"} {
+			for _, m1 := range []string{"req", "opt"} {
+				for _, gm := range []string{"grp", "soft"} {
+					for _, m3 := range []string{"req", "opt"} {
+						for di, mk := range decVariants {
+							for _, ds := range []string{"r", "b"} {
+								if di == 0 && ds == "b" {
+									continue
+								}
+								c := &cat.Catalog{Parent: copyTree(chainTree), Fns: map[string]*cat.Fn{}}
+								c.Fns["c1"] = ctor(p1, []cat.Param{par("T5", m1, objIf(m1))}, grp("T2@g"))
+								c.Fns["c2"] = ctor(Place{[]string{"r", "a"}[(pi1+di)%2], false}, []cat.Param{par("T2@g", gm, 1)}, one("T0"))
+								c.Fns["c3"] = ctor(Place{[]string{"r", "a", "b"}[(pi1+di)%3], false}, []cat.Param{par("T0", m3, objIf(m3))}, one("T1"))
+								if t5 != "" {
+									c.Fns["c4"] = ctor(Place{t5, false}, nil, one("T5"))
+								}
+								c.Fns["i1"] = inv(par("T1", "opt", 1))
+								c.Fns["i2"] = inv(par("T0", "opt", 1))
+								c.Fns["i3"] = inv(par("T1", "req", 0))
+								c.Fns["i4"] = inv(par("T1", "opt", 1), par("T2@g", "grp", 1))
+								for id, f := range mk(ds) {
+									c.Fns[id] = f
+								}
+								// registration order matters little here: one rotation per catalog (the
+								// decorator stays free and may arrive between two Invokes)
+								ord := []string{"c1", "c2", "c3"}
+								if t5 != "" {
+									ord = append(ord, "c4")
+								}
+								rot := (pi1 + di + len(m1) + len(gm)) % len(ord)
+								c.Order = append(append([]string(nil), ord[rot:]...), ord[:rot]...)
+								c.Note = fmt.Sprintf("gaps c1=%v t5=%q m1=%s gm=%s m3=%s dec=%d@%s", p1, t5, m1, gm, m3, di, ds)
+								out = append(out, finish(c, opts, cb))
+							}
+						}
+					}
 				}
 			}
 		}
